@@ -99,7 +99,7 @@ public final class BigNat {
     }
     public static Value Mul(final Value a, final Value b) { return nat(big(a).multiply(big(b))); }
     public static Value Div(final Value a, final Value b) { return nat(big(a).divide(big(b))); }
-    public static Value Mod(final Value a, final Value b) { return nat(big(a).mod(big(b))); }
+    public static Value Rem(final Value a, final Value b) { return nat(big(a).mod(big(b))); }
     public static Value AddMod(final Value a, final Value b, final Value m) { return nat(big(a).add(big(b)).mod(big(m))); }
     public static Value SubMod(final Value a, final Value b, final Value m) { return nat(big(a).subtract(big(b)).mod(big(m))); }
     public static Value MulMod(final Value a, final Value b, final Value m) { return nat(big(a).multiply(big(b)).mod(big(m))); }
